@@ -48,7 +48,7 @@ def main(tier, replay=None):
     args = [outs[0], "-n", str(n), "-out", out, "-j", str(jobs)]
     # quick: coverage-guided plans (cmd/c18/guided.go) within a budget of runs per history; a modelled Go
     # function whose source changed since the pin (c.drift) triples the budget and the multiplicity
-    quota, mult = (20, 2) if not c.escalated else (60, 4)
+    quota, mult = (20, 2) if not c.escalated else (36, 3)
     args += ["-guided", "-quota", str(quota), "-mult", str(mult)] if tier == "quick" else ["-all", "-pairs", "6"]
     if replay:
         rp = json.load(open(replay))
